@@ -6,7 +6,7 @@
 // tagged tree from scratch with SHA-256.
 use crate::jet::Core;
 use crate::merkle::cmr::ConstructibleCmr;
-use crate::node::{ConstructNode, CoreConstructible, DisconnectConstructible, Hiding, WitnessConstructible};
+use crate::node::{ConstructData, ConstructNode, CoreConstructible, DisconnectConstructible, Hiding, Inner, Node, WitnessConstructible};
 use crate::{types, FailEntropy, HasCmr, Value};
 use hashes::sha256::{HashEngine, Midstate};
 use hashes::HashEngine as _;
@@ -114,6 +114,27 @@ fn c09_cmr_replay() {
             if let Some(n) = build::<Arc<ConstructNode>>(&ctx, &s) {
                 if n.cmr().as_ref() != &want[..] {
                     fails.push(format!("node built for {:?} has root {}, the tagged tree hashes to {:02x?}", s, n.cmr(), want));
+                }
+                // Node::from_parts over every unary / assertion shape of this node agrees with the reference
+                {
+                    let h = reference(&Shape::Iden);
+                    let hid = crate::Cmr::from_byte_array(h);
+                    let d = n.cached_data();
+                    let cases: Vec<(&str, Option<ConstructNode>, [u8; 32])> = vec![
+                        ("injl", Some(Node::from_parts(Inner::InjL(Arc::clone(&n)), ConstructData::injl(d))), tag("injl", &cat(&[0u8; 32], &want))),
+                        ("injr", Some(Node::from_parts(Inner::InjR(Arc::clone(&n)), ConstructData::injr(d))), tag("injr", &cat(&[0u8; 32], &want))),
+                        ("take", Some(Node::from_parts(Inner::Take(Arc::clone(&n)), ConstructData::take(d))), tag("take", &cat(&[0u8; 32], &want))),
+                        ("drop", Some(Node::from_parts(Inner::Drop(Arc::clone(&n)), ConstructData::drop_(d))), tag("drop", &cat(&[0u8; 32], &want))),
+                        ("assertl", ConstructData::assertl(d, hid).ok().map(|cd| Node::from_parts(Inner::AssertL(Arc::clone(&n), hid), cd)), tag("case", &cat(&want, &h))),
+                        ("assertr", ConstructData::assertr(hid, d).ok().map(|cd| Node::from_parts(Inner::AssertR(hid, Arc::clone(&n)), cd)), tag("case", &cat(&h, &want))),
+                    ];
+                    for (name, node, expect) in cases {
+                        if let Some(node) = node {
+                            if node.cmr().as_ref() != &expect[..] {
+                                fails.push(format!("Node::from_parts({} over {:?}) has root {}, the tagged tree hashes to {:02x?}", name, s, node.cmr(), expect));
+                            }
+                        }
+                    }
                 }
                 // conversions keep the root: construction -> commitment -> (with the attached witnesses) redemption
                 if let Ok(c) = n.finalize_types_non_program() {
